@@ -224,7 +224,10 @@ def run(ctx):
     pfh = m.cls("PhystFrame").methods["h"]
     tph = U(pfh.node)
     ctx.check("if len(columns) == 2:" in tph and "return physt.h2(data[columns[0]], data[columns[1]], bins=bins, **kwargs)" in tph
-              and "if len(columns) == 1:" in tph and "return physt.h1(data, bins=bins, **kwargs)" in tph, "C17.d", "PhystFrame.h:dispatch",
+              and "if len(columns) == 1:" in tph and "return physt.h1(data, bins=bins, **kwargs)" in tph
+              and "return physt.h(data, bins=bins, **kwargs)" in tph
+              and [U(n.value) for n in ast.walk(pfh.node) if isinstance(n, ast.Assign) and U(n.targets[0]) == "data"] == ["self._df.select(*selectors)"],
+              "C17.d", "PhystFrame.h:dispatch",
               "1 column -> h1, 2 columns -> h2(first, second), more -> h", "the polars frame accessor no longer dispatches on the number of columns in order", pfh.where)
     # the NaN policy (refuse / drop with the weights, per `dropna`) is the facade's: accessors hand the column(s) on untouched
     NA_CALLS = {"notna", "dropna", "isna", "isnull", "notnull", "fillna", "drop_nulls", "fill_null", "is_null", "is_not_null", "isnan",
